@@ -43,7 +43,8 @@ Proof.
   induction f as [|f IH]; intros n; cbn [dec_rev]; [constructor|].
   destruct (N.ltb_spec n 10) as [L|G].
   - repeat constructor; lia.
-  - constructor; [|apply IH]. pose proof (N.mod_lt n 10). unfold is_digit. lia.
+  - constructor; [|apply IH]. assert (n mod 10 < 10) by (apply N.mod_lt; lia).
+    unfold is_digit. set (m := n mod 10) in *. clearbody m. lia.
 Qed.
 
 Lemma dec_N_digits n : Forall is_digit (dec_N n).
